@@ -19,7 +19,8 @@ META = dict(
     level_text='Kernel-checked theorems for the reference sampler over an ARBITRARY interaction table (any sites, '
                'interactions, multiplicities), any occupation and any history: start establishes, and every update '
                '(repeated / already-satisfied / overlapping sites, exceptions half-way) preserves, "state = start(current '
-               'occupation)"; clustercount = number of unoccupied sites per interaction; the vacancy is in neither set; '
+               'occupation)"; clustercount = number of unoccupied sites per interaction, E() = sum over the energy interactions '
+               'with no unoccupied site; the vacancy is in neither set; '
                'deltaE_trial = E(after) - E(before) exactly under the documented precondition (shown necessary by two '
                'counterexamples). The model is tied to the real class by differential histories on exported tables of '
                'real samplers (exhaustive on tiny supercells, long random histories on larger ones).',
@@ -31,7 +32,7 @@ META = dict(
     lean_modules=['OnsagerModel.C33', 'OnsagerProofs.C33'],
     theorems=['Onsager.C33.start_count', 'Onsager.C33.start_inv', 'Onsager.C33.moveOne_inv', 'Onsager.C33.update_inv',
               'Onsager.C33.update_no_keyerror', 'Onsager.C33.history_eq_fresh', 'Onsager.C33.observables_eq_fresh',
-              'Onsager.C33.vacancy_guard', 'Onsager.C33.deltaE_exact', 'Onsager.C33.deltaE_dup_counterexample',
+              'Onsager.C33.vacancy_guard', 'Onsager.C33.energy_spec', 'Onsager.C33.deltaE_exact', 'Onsager.C33.deltaE_dup_counterexample',
               'Onsager.C33.deltaE_overlap_counterexample'],
     tie_theorems=[],
     rule='a case = one history on one real sampler (crystal x supercell x {plain, jump network, vacancy, vacancy+jumps, '
@@ -451,10 +452,33 @@ def run(ctx):
         nint = len(b.values)
         if ctx.quick: length = 250 if nint > 3000 else 600
         else: length = 2500 if nint > 3000 else 10000
-        if ctx.budget_left() < (40 if ctx.quick else 300):
+        if t >= 4 and ctx.budget_left() < (40 if ctx.quick else 300):
             ctx.count('skipped:budget'); break
         random_history(ctx, rec, b, rng, length, malformed=(t % 5 == 4))
     rec.compare()
+
+
+class _Null:
+    def add(self, *a, **k): pass
+
+
+def replay(ctx, data):
+    """./check C33 quick --replay replays/C33_….json : rebuild the sampler, re-run the history, re-evaluate the oracles"""
+    r = data['replay']
+    b = mc.rebuild(r['build'])
+    im = Impl(b); im.domain, im.changed = False, False
+    hist = []
+    for op in r.get('history', []):
+        if op[0] in ('start', 'upd', 'de'):
+            st = _apply(ctx, _Null(), im, tuple(op), hist, ctx.rng)
+            print('%-60s -> %s' % (str(op)[:60], st))
+            if im.started and im.domain: oracle_fresh(ctx, im, hist, ctx.rng)
+    if 'occsites' in r and 'E_before' in r:
+        _apply(ctx, _Null(), im, ('upd', r['occsites'], r['unoccsites']), hist, ctx.rng)
+    for v in ctx.violations[:3]:
+        print('VIOLATION reproduced: %s — %s\n  %s' % (v['sig'], v['what'], {k: w for k, w in v['replay'].items() if k not in ('build', 'history')}))
+    if not ctx.violations: print('no violation on replay')
+    return 1 if ctx.violations else 0
 
 
 def search(ctx, reasons):
